@@ -6,10 +6,10 @@ import ast
 from fractions import Fraction
 from typing import Dict, List, Optional, Set, Tuple
 
-from oqv import roles
+from oqv import roles, rolebind
 from oqv.astutil import call_name, method_call
 from oqv.cfg import CFG
-from oqv.dataflow import DefUse
+from oqv.dataflow import DefUse, origin_text
 from oqv.forms import Poly, eval_form
 from oqv.model import AnalysisError, Program, Unit, dotted, norm, walk_local
 from oqv.report import Check
@@ -391,18 +391,25 @@ def f2(prog: Program, chk: Check) -> None:
         if not r1 or not r2:
             raise AnalysisError(f"F2: stages of {u.qual} are not bound to names")
 
-        def leaf(x):
+        # A: the field value the first stage is evaluated at; T: its time. Other locals are
+        # followed to their definitions; what is left is a symbol named by its own text.
+        a_text = norm(calls[0].args[2]) if len(calls[0].args) > 2 else None
+        t_text = origin_text(du, du.node_of(calls[0]), calls[0].args[0])
+
+        def leaf(x, _at=[None]):
             if isinstance(x, ast.Name):
                 if x.id == r1:
                     return Poly.sym("R1")
                 if x.id == r2:
                     return Poly.sym("R2")
-                if x.id == "field":
-                    return Poly.sym("A")
-                if x.id == "t":
-                    return Poly.sym("T")
-            if roles.role_of(x) == "DT":
+            if a_text is not None and norm(x) == a_text:
+                return Poly.sym("A")
+            if isinstance(x, (ast.Name, ast.Attribute)) and rolebind.arg_role(u, x) == "DT":
                 return DT
+            if isinstance(x, (ast.Name, ast.Call, ast.Attribute)):
+                ot = origin_text(du, du.node_of(calls[1]), x)
+                if ot == t_text:
+                    return Poly.sym("T")
             return None
         A, R1, R2, T = Poly.sym("A"), Poly.sym("R1"), Poly.sym("R2"), Poly.sym("T")
         half = Poly.const(Fraction(1, 2))
